@@ -136,3 +136,19 @@ fn noop_placeholder(_op: &Op, _ctx: &dyn Context, _operands: &mut dyn Coordinate
     // non-existing or non-implemented inverse operation
     0
 }
+
+// ----- V E R I F I C A T I O N   H O O K S -------------------------------------------
+
+#[cfg(geodesy_verif)]
+pub(crate) fn verif_builtin_names() -> Vec<&'static str> {
+    BUILTIN_OPERATORS.iter().map(|p| p.0).collect()
+}
+
+#[cfg(geodesy_verif)]
+pub(crate) fn verif_unit_table() -> Vec<(&'static str, f64)> {
+    units::LINEAR_UNITS
+        .iter()
+        .chain(units::ANGULAR_UNITS.iter())
+        .map(|u| (u.name(), u.multiplier()))
+        .collect()
+}
